@@ -174,6 +174,10 @@ def life_scenarios(rng):
         s = ["scenario"] + tcp_pair(fam) + ["send 2 5 1", "recv 3 10", "close 3", "send 2 5 1", "sleepms 30", "send 2 5 1", "send 2 5", "send 2 5 1", "getters 2",
                                             "new 7 %d tcp" % fam, "connect 7 1", "accept 8 1", "free 8", "send 7 3", "sleepms 30", "send 7 3 1", "send 7 3 1", "send 7 3"]
         out.append(s)
+        # options of the listener and of the accepted socket: keep-alive set on the listener before accept, read and cleared through the accepted socket
+        s = ["scenario", "new 1 %d tcp" % fam, "set 1 keepalive 1", "bind 1", "listen 1", "getters 1", "new 2 %d tcp" % fam, "connect 2 1", "accept 3 1", "getters 3",
+             "set 3 keepalive 0", "getters 3", "set 3 keepalive 1", "getters 3", "set 1 keepalive 0", "new 7 %d tcp" % fam, "connect 7 1", "accept 8 1", "getters 8", "set 8 keepalive 1", "getters 8"]
+        out.append(s)
         # blocking without timeout waits until it can proceed: the receiver is parked, then the peer sends
         s = ["scenario"] + tcp_pair(fam) + ["bg recv 3 10", "sleepms 60", "send 2 4", "join", "bg accept 8 1", "sleepms 60", "new 9 %d tcp" % fam, "connect 9 1", "join"]
         out.append(s)
